@@ -65,6 +65,19 @@ def jsonable(x: Any) -> Any:
     return repr(x)
 
 
+def panqec_frame(exc: BaseException) -> Optional[str]:
+    """'file.py:function' of the innermost traceback frame that lies inside
+    the panqec source tree (or a third-party library called from it), or None
+    when the exception was raised by harness code alone."""
+    tb = traceback.extract_tb(exc.__traceback__)
+    src = os.path.realpath(PANQEC_SRC) + os.sep
+    inner = None
+    for f in tb:
+        if os.path.realpath(f.filename).startswith(src + 'panqec' + os.sep):
+            inner = f'{os.path.basename(f.filename)}:{f.name}'
+    return inner
+
+
 def digest(x: Any) -> str:
     s = json.dumps(jsonable(x), sort_keys=True, separators=(',', ':'))
     return hashlib.blake2b(s.encode(), digest_size=8).hexdigest()
